@@ -29,14 +29,18 @@ Qed.
 Lemma catch_err {S A} (m : M S A) s e s' : m s = (Err e, s') → catch m s = (Ok (Err e), s').
 Proof. unfold catch. by intros ->. Qed.
 
-(** [var] / [ite] for every ledger at once *)
-Lemma var_run' s n j r s' :
+(** [var] / [ite] for every ledger at once, ANY outcome: with a bound on the
+    number of nodes they can fail ([RuntimeError], the table is full); they
+    cannot fail without one *)
+Lemma var_any s n j r s' :
   Inv s → last_len s = None → vars s !! n = Some j → var n s = (r, s') →
-  ∃ u, r = Ok u ∧ Inv s' ∧ grows s s' ∧ (∀ L, Counts s L → Counts s' L) ∧ valid s' u ∧
-       ∀ ρ, denv s' u ρ = ρ n.
+  Inv s' ∧ grows s s' ∧ (∀ L, Counts s L → Counts s' L) ∧
+  (∀ u, r = Ok u → valid s' u ∧ ∀ ρ, denv s' u ρ = ρ n) ∧
+  (max_nodes s = None → ∃ u, r = Ok u).
 Proof.
   intros HI Hoff Hj Hrun.
   destruct (tsafe_var n s r s' HI Hoff Hrun) as (HI'&He&Hf&HC').
+  split; [done|]. split; [done|]. split; [done|].
   unfold var in Hrun.
   apply try_to_reorder_inert in Hrun as (r1&s1&Hrun&Hcase).
   set (s0 := s <| rctx := true |>) in *.
@@ -48,27 +52,57 @@ Proof.
   2: by apply valid_m1. 2: by apply valid_1.
   2: by rewrite (lvl_term s0 HI0). 2: by rewrite (lvl_term s0 HI0).
   destruct r1 as [u|e]; cycle 1.
-  { destruct Hr as (_&[l Hl]&_). change (last_len s0) with (last_len s) in Hl. congruence. }
+  { destruct (benign_off s0 e Hoff (proj1 Hr)) as [-> Hsome].
+    destruct Hcase as [[[=] _]|[-> _]]. split; [by intros ? [=]|].
+    intros Hmx. change (max_nodes s0) with (max_nodes s) in Hsome. rewrite Hmx in Hsome.
+    by destruct Hsome. }
   destruct Hcase as [[? _]|[-> ->]]; [done|].
-  destruct Hr as (Hu&_&HD). exists u.
-  split; [done|]. split; [done|]. split; [done|]. split; [done|].
-  split; [done|]. intros ρ. unfold denv. rewrite D_rctx, HD.
+  destruct Hr as (Hu&_&HD). split; [|by eexists].
+  intros ? [= <-]. split; [done|]. intros ρ. unfold denv. rewrite D_rctx, HD.
   rewrite (D_1 s0 HI0), (D_m1 s0 HI0).
   destruct He1 as (_&_&El). cbn. rewrite <- El. change (lvl2var s0) with (lvl2var s).
   rewrite (proj1 (inv_vars _ HI n j) Hj). by destruct (ρ n).
 Qed.
 
-Lemma ite_run' s g u v r s' :
+Lemma var_run' s n j r s' :
+  Inv s → last_len s = None → max_nodes s = None → vars s !! n = Some j →
+  var n s = (r, s') →
+  ∃ u, r = Ok u ∧ Inv s' ∧ grows s s' ∧ (∀ L, Counts s L → Counts s' L) ∧ valid s' u ∧
+       ∀ ρ, denv s' u ρ = ρ n.
+Proof.
+  intros HI Hoff Hmx Hj Hrun.
+  destruct (var_any s n j r s' HI Hoff Hj Hrun) as (HI'&G&HC&Hok&Htot).
+  destruct (Htot Hmx) as [u ->]. destruct (Hok u eq_refl) as [Hu HD].
+  exists u. by split_and!.
+Qed.
+
+Lemma ite_any s g u v r s' :
   Inv s → last_len s = None → valid s g → valid s u → valid s v →
+  ite g u v s = (r, s') →
+  Inv s' ∧ grows s s' ∧ (∀ L, Counts s L → Counts s' L) ∧
+  (∀ w, r = Ok w → valid s' w ∧
+     ∀ ρ, denv s' w ρ = if denv s g ρ then denv s u ρ else denv s v ρ) ∧
+  (max_nodes s = None → ∃ w, r = Ok w).
+Proof.
+  intros HI Hoff Hg Hu Hv Hrun.
+  destruct (tsafe_ite g u v s r s' HI Hoff Hrun) as (_&_&_&HC').
+  destruct (ite_spec s g u v r s' HI Hg Hu Hv (or_intror Hoff) Hrun) as (HI'&He&Hf&Hr).
+  split; [done|]. split; [done|]. split; [done|]. split.
+  - intros w ->. destruct Hr as (Hw&_&HD). split; [done|]. intros ρ. unfold denv.
+    destruct He as (_&_&El). rewrite <- El. apply HD.
+  - intros Hmx. destruct r as [w|e]; [by eexists|]. by destruct (benign_never s e Hoff Hmx Hr).
+Qed.
+
+Lemma ite_run' s g u v r s' :
+  Inv s → last_len s = None → max_nodes s = None → valid s g → valid s u → valid s v →
   ite g u v s = (r, s') →
   ∃ w, r = Ok w ∧ Inv s' ∧ grows s s' ∧ (∀ L, Counts s L → Counts s' L) ∧ valid s' w ∧
        ∀ ρ, denv s' w ρ = if denv s g ρ then denv s u ρ else denv s v ρ.
 Proof.
-  intros HI Hoff Hg Hu Hv Hrun.
-  destruct (tsafe_ite g u v s r s' HI Hoff Hrun) as (_&_&_&HC').
-  destruct (ite_spec_off s g u v r s' HI Hg Hu Hv Hoff Hrun) as (w&->&HI'&He&Hf&Hw&HD).
-  exists w. split; [done|]. split; [done|]. split; [done|]. split; [done|].
-  split; [done|]. intros ρ. unfold denv. destruct He as (_&_&El). rewrite <- El. apply HD.
+  intros HI Hoff Hmx Hg Hu Hv Hrun.
+  destruct (ite_any s g u v r s' HI Hoff Hg Hu Hv Hrun) as (HI'&G&HC&Hok&Htot).
+  destruct (Htot Hmx) as [w ->]. destruct (Hok w eq_refl) as [Hw HD].
+  exists w. by split_and!.
 Qed.
 
 (** ** 1. Objects *)
@@ -177,7 +211,7 @@ Lemma copy_fn_rec_spec fuel : ∀ u cache r H n,
     (∀ L, Counts r (ledger_add L (cvals cache)) →
           Counts r' (ledger_add L (cvals cache' ++ rfresh rc))) ∧
     (∀ o, rc = Ok o → obj_ok src r' cache' u o) ∧
-    (decl r → ∃ o, rc = Ok o).
+    (decl r → max_nodes r = None → ∃ o, rc = Ok o).
 Proof.
   induction fuel as [|f IH]; intros u cache r H n Hv Hf HI Hoff Hc; [lia|].
   cbn [copy_fn_rec].
@@ -192,7 +226,7 @@ Proof.
       (∀ L, Counts r (ledger_add L (cvals cache)) →
             Counts r' (ledger_add L (cvals cache' ++ rfresh rc))) ∧
       (∀ o, rc = Ok o → obj_ok src r' cache' c o) ∧
-      (decl r → ∃ o, rc = Ok o)).
+      (decl r → max_nodes r = None → ∃ o, rc = Ok o)).
   { intros c Hvc Hc1.
     assert (Hvr : valid r c) by (destruct Hc1 as [-> | ->]; [by apply valid_1|by apply valid_m1]).
     exists (Ok (OFresh c)), cache, (bump c r).
@@ -237,7 +271,7 @@ Proof.
   { exists (Err e), c1, r1. split; [done|]. split; [done|]. split; [done|]. split; [done|].
     split; [done|]. split.
     { intros k' Hk'. destruct (Hlv1 k' Hk') as [?|?]; [by left|right; lia]. }
-    split; [exact HL1|]. split; [done|]. intros Hd. by destruct (Hd1 Hd). }
+    split; [exact HL1|]. split; [done|]. intros Hd Hmx. by destruct (Hd1 Hd Hmx). }
   pose proof (Ho1 lo eq_refl) as Hlo.
   (* high *)
   destruct (IH (t_hi t) c1 r1 H n Hvh ltac:(lia) HI1 Hoff1 Hc1)
@@ -269,7 +303,7 @@ Proof.
     split.
     { intros L HC. apply rel_Counts; [done|]. eapply Counts_ext; [|exact (HC2 L HC)].
       cbn [rfresh]. ladd. }
-    split; [done|]. intros Hd. by destruct (Hd2 (Hdecl1 Hd)). }
+    split; [done|]. intros Hd Hmx. by destruct (Hd2 (Hdecl1 Hd) (grows_mx r r1 G1 Hmx)). }
   pose proof (Ho2 hi eq_refl) as Hhi2. cbn [rfresh] in HC2.
   pose proof (obj_fresh_valid src r2 c2 _ hi Hhi2) as Hvhi2.
   destruct (node_has_var src u t HIs Ht Hk1) as (v&Hlv&Hvv).
@@ -297,13 +331,38 @@ Proof.
     split.
     { intros L HC. apply rel_Counts; [done|]. apply rel_Counts; [done|].
       eapply Counts_ext; [|exact (HC2 L HC)]. cbn [rfresh]. ladd. }
-    split; [done|]. intros Hd. exfalso.
+    split; [done|]. intros Hd _. exfalso.
     destruct (Hd v ltac:(by eexists)) as [j Hj']. rewrite (grows_vars r r2 G02) in Hj. congruence. }
   (* the variable is declared: the node is built *)
   assert (HCg : ∀ L, Counts r (ledger_add L (cvals cache)) →
             Counts r2 (ledger_add L (cvals c2 ++ fresh1 hi ++ fresh1 lo))) by exact HC2.
   destruct (var v r2) as [rg r3] eqn:Eg.
-  destruct (var_run' r2 v j rg r3 HI2 Hoff2 Hj Eg) as (g&->&HI3&G23&HCv&Hvg&HDg).
+  destruct (var_any r2 v j rg r3 HI2 Hoff2 Hj Eg) as (HI3&G23&HCv&Hgok&Hgtot).
+  assert (Hvhi3 : Forall (valid r3) (fresh1 hi)).
+  { eapply Forall_impl; [exact Hvhi2|]. intros y. by apply grows_valid. }
+  assert (Hvlo3 : Forall (valid r3) (fresh1 lo)).
+  { eapply Forall_impl; [exact Hvlo2|]. intros y. by apply grows_valid. }
+  destruct rg as [g|e]; cycle 1.
+  { (* [var] fails (the table of the target is full): the locals die *)
+    erewrite (bind_ok (catch _)); cycle 1.
+    { apply catch_err. rewrite Hlv. cbn [of_opt]. rewrite (bind_ok _ _ _ v (ASt r2 H n)) by done.
+      apply bind_err. apply lift_run. exact Eg. }
+    step (release_ok r3 H n hi HI3 Hvhi3).
+    assert (Hvlo3' : Forall (valid (rel hi r3)) (fresh1 lo)).
+    { eapply Forall_impl; [exact Hvlo3|]. intros y. apply grows_valid, rel_grows. }
+    step (release_ok (rel hi r3) H n lo (rel_Inv hi r3 HI3) Hvlo3').
+    set (r4 := rel lo (rel hi r3)).
+    assert (G24 : grows r2 r4) by (etrans; [exact G23|]; etrans; apply rel_grows).
+    exists (Err e), c2, r4. split; [done|].
+    split; [by apply rel_Inv, rel_Inv|]. split; [by etrans|]. split; [done|].
+    split; [by apply (jcache_ok_grows src r2)|]. split.
+    { intros k' Hk'. destruct (Hlv02 k' Hk') as [?|?]; [by left|right; lia]. }
+    split.
+    { intros L HC. apply rel_Counts; [done|]. apply rel_Counts; [done|].
+      apply HCv. eapply Counts_ext; [|exact (HC2 L HC)]. cbn [rfresh]. ladd. }
+    split; [done|]. intros Hd Hmx.
+    by destruct (Hgtot (grows_mx r r2 G02 Hmx)) as [? [=]]. }
+  destruct (Hgok g eq_refl) as [Hvg HDg]. clear Hgok Hgtot.
   set (r4 := bump g r3).
   assert (HI4 : Inv r4) by (by apply Inv_bump).
   assert (G24 : grows r2 r4) by (etrans; [exact G23|apply grows_bump]).
@@ -312,8 +371,50 @@ Proof.
   assert (Hvhn4 : valid r4 hn) by (by apply (grows_valid r2 r4)).
   assert (Hvln4 : valid r4 ln) by (by apply (grows_valid r2 r4)).
   destruct (ite g hn ln r4) as [rx r5] eqn:Ex.
-  destruct (ite_run' r4 g hn ln rx r5 HI4 Hoff4 Hvg4 Hvhn4 Hvln4 Ex)
-    as (x&->&HI5&G45&HCi&Hvx&HDx).
+  destruct (ite_any r4 g hn ln rx r5 HI4 Hoff4 Hvg4 Hvhn4 Hvln4 Ex)
+    as (HI5&G45&HCi&Hxok&Hxtot).
+  destruct rx as [x|e]; cycle 1.
+  { (* [ite] fails (the table of the target is full): [g] and the locals die *)
+    assert (Hvg5 : valid r5 g) by (by apply (grows_valid r4 r5)).
+    set (r6 := unbump g r5).
+    assert (HI6 : Inv r6) by (by apply Inv_unbump).
+    assert (G26 : grows r2 r6).
+    { etrans; [exact G24|]. etrans; [exact G45|]. apply grows_unbump. }
+    erewrite (bind_ok (catch _)); cycle 1.
+    { apply catch_err. rewrite Hlv. cbn [of_opt]. rewrite (bind_ok _ _ _ v (ASt r2 H n)) by done.
+      step (lift_run _ _ H n _ _ Eg).
+      apply (with_tmp_run g _ r3 H n (Err e) r5 HI3 Hvg); [|done|done].
+      step (cobj_node_ok src r4 c2 _ hi H n
+              (obj_ok_mono src r2 r4 c2 c2 _ hi HI2 G24 (reflexivity _) Hhi2)).
+      step (cobj_node_ok src r4 c2 _ lo H n
+              (obj_ok_mono src r2 r4 c2 c2 _ lo HI2 G24 (reflexivity _) Hlo2)).
+      fold hn ln.
+      step (check_in_ok r4 H n g Hvg4). step (check_in_ok r4 H n hn Hvhn4).
+      step (check_in_ok r4 H n ln Hvln4). apply bind_err. exact (lift_run _ _ H n _ _ Ex). }
+    assert (Hvhi6 : Forall (valid r6) (fresh1 hi)).
+    { eapply Forall_impl; [exact Hvhi2|]. intros y. by apply grows_valid. }
+    step (release_ok r6 H n hi HI6 Hvhi6).
+    assert (Hvlo6 : Forall (valid (rel hi r6)) (fresh1 lo)).
+    { eapply Forall_impl; [exact Hvlo2|]. intros y Hy.
+      apply (grows_valid r6); [apply rel_grows|]. by apply (grows_valid r2 r6). }
+    step (release_ok (rel hi r6) H n lo (rel_Inv hi r6 HI6) Hvlo6).
+    set (r8 := rel lo (rel hi r6)).
+    assert (G28 : grows r2 r8) by (etrans; [exact G26|]; etrans; apply rel_grows).
+    exists (Err e), c2, r8. split; [done|].
+    split; [by apply rel_Inv, rel_Inv|]. split; [by etrans|]. split; [done|].
+    split; [by apply (jcache_ok_grows src r2)|]. split.
+    { intros k' Hk'. destruct (Hlv02 k' Hk') as [?|?]; [by left|right; lia]. }
+    split.
+    { intros L HC. apply rel_Counts; [done|]. apply rel_Counts; [done|].
+      assert (HCa : Counts r3 (ledger_add L (cvals c2 ++ fresh1 hi ++ fresh1 lo)))
+        by apply HCv, HCg, HC.
+      pose proof (Counts_bump_add r3 _ _ g Hvg HCa) as HCb. fold r4 in HCb.
+      apply (Counts_unbump_add r5 _ _ g Hvg5). eapply Counts_ext; [|exact (HCi _ HCb)].
+      cbn [rfresh]. ladd. }
+    split; [done|]. intros Hd Hmx.
+    assert (Hmx4 : max_nodes r4 = None) by (apply (grows_mx r r4); [by etrans|done]).
+    by destruct (Hxtot Hmx4) as [? [=]]. }
+  destruct (Hxok x eq_refl) as [Hvx HDx]. clear Hxok Hxtot.
   set (r6 := bump x r5).
   assert (HI6 : Inv r6) by (by apply Inv_bump).
   assert (Hvg6 : valid r6 g) by (by apply (grows_valid r4 r5)).
@@ -419,7 +520,7 @@ Lemma copy_roots_spec src (HIs : Inv src) : ∀ roots objs us0 cache r H n,
     (failed = None → us' = us0 ++ roots) ∧
     (∀ L, Counts r (ledger_add L (cvals cache ++ fresh_of objs)) →
           Counts r' (ledger_add L (cvals cache' ++ fresh_of objs'))) ∧
-    (decl src r → Forall (valid src) roots → failed = None).
+    (decl src r → max_nodes r = None → Forall (valid src) roots → failed = None).
 Proof.
   induction roots as [|u roots IH]; intros objs us0 cache r H n HI Hoff Hc Hobjs.
   { exists objs, cache, None, r, us0. split; [done|]. split; [done|]. split; [reflexivity|].
@@ -427,7 +528,7 @@ Proof.
   cbn [copy_roots]. destruct (mem u src) eqn:Hm; cbn [negb]; cycle 1.
   { exists objs, cache, (Some EValue), r, us0. split; [done|]. split; [done|].
     split; [reflexivity|]. split; [done|]. split; [done|]. split; [done|]. split; [done|].
-    intros _ Hv. apply Forall_cons in Hv as [Hv _]. apply mem_valid in Hv. congruence. }
+    intros _ _ Hv. apply Forall_cons in Hv as [Hv _]. apply mem_valid in Hv. congruence. }
   apply mem_valid in Hm.
   destruct (copy_fn_rec_spec src HIs (S (S (nvars src))) u cache r H n Hm ltac:(lia) HI Hoff Hc)
     as (rc&c1&r1&E1&HI1&G1&Hs1&Hc1&_&HL1&Ho1&Hd1).
@@ -445,7 +546,7 @@ Proof.
   { exists objs, c1, (Some e), r1, us0. split; [done|]. split; [done|]. split; [done|].
     split; [done|]. split; [done|]. split; [done|]. split.
     - intros L HC. eapply Counts_ext; [|exact (HC1 L HC)]. cbn [rfresh]. ladd.
-    - intros Hd _. by destruct (Hd1 Hd). }
+    - intros Hd Hmx _. by destruct (Hd1 Hd Hmx). }
   destruct (IH (objs ++ [o]) (us0 ++ [u]) c1 r1 H n HI1 Hoff1 Hc1)
     as (objs'&c2&failed&r2&us'&E2&HI2&G2&Hc2&Hobjs2&Hus&HL2&Hd2).
   { apply Forall2_app; [done|]. constructor; [by apply Ho1|constructor]. }
@@ -455,7 +556,7 @@ Proof.
   split.
   - intros L HC. apply HL2. rewrite fresh_of_app, fresh_of_one.
     eapply Counts_ext; [|exact (HC1 L HC)]. cbn [rfresh]. ladd.
-  - intros Hd Hv. apply Forall_cons in Hv as [_ Hv]. apply Hd2; [|done].
+  - intros Hd Hmx Hv. apply Forall_cons in Hv as [_ Hv]. apply Hd2; [|by apply (grows_mx r r1)|done].
     intros v Hx. rewrite (grows_vars r r1 G1). by apply Hd.
 Qed.
 
@@ -715,7 +816,7 @@ Theorem copy_bdds_from_spec src roots r0 H n L :
              hs !! i = hs !! j) ∧
           (∀ j, j < length us → n + j ∈ hs)
     end ∧
-    (decl src r0 → Forall (valid src) roots → ∃ hs, res = Ok hs).
+    (decl src r0 → max_nodes r0 = None → Forall (valid src) roots → ∃ hs, res = Ok hs).
 Proof.
   intros HIs HI0 Hoff HC0.
   destruct (copy_roots_spec src HIs roots [] [] ∅ r0 H n HI0 Hoff)
@@ -735,7 +836,7 @@ Proof.
     { apply HC2. eapply Counts_ext; [|exact HC1]. unfold cvals. ladd. }
     step E3. exists (Err e), r3, H, n. split; [done|]. split; [done|].
     split; [etrans; [exact G1|]; by etrans|]. split; [done|].
-    intros Hd Hv. by specialize (Hd1 Hd Hv). }
+    intros Hd Hmx Hv. by specialize (Hd1 Hd Hmx Hv). }
   specialize (Hus eq_refl). cbn in Hus. subst us'.
   (* the handles *)
   assert (Hinv0 : hinv c1 n [] [] [] ∅ []).
@@ -785,7 +886,7 @@ Qed.
 (** ** 7. The statements on autoref states *)
 Theorem copy_bdds_from_correct src roots b L :
   Inv src → Forall (valid src) roots →
-  Inv (mgr b) → last_len (mgr b) = None → Counts (mgr b) L →
+  Inv (mgr b) → last_len (mgr b) = None → max_nodes (mgr b) = None → Counts (mgr b) L →
   (∀ v, is_Some (vars src !! v) → is_Some (vars (mgr b) !! v)) →
   ∃ hs us b',
     copy_bdds_from src roots b = (Ok hs, b') ∧ length hs = length roots ∧
@@ -804,10 +905,10 @@ Theorem copy_bdds_from_correct src roots b L :
     (* the counts: one reference per new handle *)
     Counts (mgr b') (ledger_add L us).
 Proof.
-  intros HIs Hr HIb Hoff HC Hd. destruct b as [r0 H n]. cbn [mgr handles next_hid] in *.
+  intros HIs Hr HIb Hoff Hmx HC Hd. destruct b as [r0 H n]. cbn [mgr handles next_hid] in *.
   destruct (copy_bdds_from_spec src roots r0 H n L HIs HIb Hoff HC)
     as (res&r'&H'&n'&E&HI'&G'&Hres&Hok).
-  destruct (Hok Hd Hr) as [hs ->].
+  destruct (Hok Hd Hmx Hr) as [hs ->].
   destruct Hres as (us&->&->&HC'&HF&Hal&Hall).
   exists hs, us, (ASt r' (hins H n us) (n + length us)). cbn [mgr handles next_hid].
   split; [done|]. split; [symmetry; by eapply Forall2_length|]. split; [done|].
